@@ -82,8 +82,8 @@ def _classes_of(src: dict, mod) -> List[type]:
 
 def _sources(par: dict, seed: int) -> List[dict]:
     out = [{"type": "core"}, {"type": "header"},
-           {"type": "file", "path": "/repo/tests/test_msg_defs/test_defs.py", "name": "vf_test_defs"},
-           {"type": "file", "path": "/repo/examples/msg_defs/example_messages.py", "name": "vf_example_messages"},
+           {"type": "file", "path": __import__("os").environ.get("VF_REPO", "/repo") + "/tests/test_msg_defs/test_defs.py", "name": "vf_test_defs"},
+           {"type": "file", "path": __import__("os").environ.get("VF_REPO", "/repo") + "/examples/msg_defs/example_messages.py", "name": "vf_example_messages"},
            {"type": "probe", "lens": par["lens"], "strlens": par["strlens"]}]
     out += [{"type": "random", "seed": seed * 1000 + i, "nstruct": 4, "nmsg": 8} for i in range(par["nrandom"])]
     return out
